@@ -733,7 +733,7 @@ theorem step_ok {banned : List Kind} {e : Ent} {c c' : Cat} (h : step banned e c
 /-! ### `compile` unpacked -/
 
 theorem compile_ok {banned : List Kind} {f : List BTree} {c : Cat} (h : compile banned f = .ok c) :
-    ∃ c₀, collectTags f {} = .ok c₀ ∧ checkTypeNames f = .ok () ∧ (∃ x, pathsForest [] f none = .ok x) ∧
+    ∃ c₀, collectTags f {} = .ok c₀ ∧ checkTypeNames f = .ok () ∧ (∃ x, pathsForest [] f [] = .ok x) ∧
       (∀ t r, f = t :: r → t.dir.kind = .Jsight) ∧ run banned (flatAF [] f) c₀ = .ok c ∧
       validateInfo c = .ok () ∧ validateRequestBody c.inters = .ok () ∧ validateResponseBody c.inters = .ok () := by
   unfold compile at h
@@ -764,8 +764,8 @@ theorem compile_ok {banned : List Kind} {f : List BTree} {c : Cat} (h : compile 
   cases h
   exact ⟨c₀, h0, h1, ⟨x, h2⟩, h3, by rw [← addForest_eq_run]; exact h4, h5, h6, h7⟩
 
-theorem compile_of {banned : List Kind} {f : List BTree} {c₀ c : Cat} {x : Option Nat}
-    (h0 : collectTags f {} = .ok c₀) (h1 : checkTypeNames f = .ok ()) (h2 : pathsForest [] f none = .ok x)
+theorem compile_of {banned : List Kind} {f : List BTree} {c₀ c : Cat} {x : List Nat}
+    (h0 : collectTags f {} = .ok c₀) (h1 : checkTypeNames f = .ok ()) (h2 : pathsForest [] f [] = .ok x)
     (h3 : ∀ t r, f = t :: r → t.dir.kind = .Jsight) (h4 : run banned (flatAF [] f) c₀ = .ok c)
     (h5 : validateInfo c = .ok ()) (h6 : validateRequestBody c.inters = .ok ())
     (h7 : validateResponseBody c.inters = .ok ()) : compile banned f = .ok c := by
@@ -1020,7 +1020,7 @@ theorem checkTypeNames_append (f g : List BTree) :
     · rfl
     · exact ih
 
-theorem pathsForest_append (anc : List BDir) (f g : List BTree) (last : Option Nat) :
+theorem pathsForest_append (anc : List BDir) (f g : List BTree) (last : List Nat) :
     pathsForest anc (f ++ g) last =
       (match pathsForest anc f last with | .error x => .error x | .ok l => pathsForest anc g l) := by
   induction f generalizing last with
